@@ -51,8 +51,9 @@ def rules(model: Model, tier: str) -> List[RuleResult]:
     from .c17 import refresh_consistency
     RJ = RuleResult(PROP, "C04-R", "the Jacobian operator refreshes its parameters identically in mv and rmv (the rmv path carries the second-order pull-back)", min_instances=2)
     refresh_consistency(model, RJ)
-    from .c17 import _connect_unconditional
+    from .c17 import _connect_unconditional, _connect
     _connect_unconditional(model, RJ)
+    _connect(model, RJ)          # both products re-evaluate the function under enable_grad + useobjparams(self.objparams) and use the cache only while valid
     # the linear solve inside the backward returns the gradient w.r.t. its right-hand side on every path: the second-order gradient of the root finder flows through it
     RB = RuleResult(PROP, "C04-B", "solve_torchfcn.backward returns a gradient for B on every exit (no all-None shortcut)", min_instances=1)
     _sfc = ac.get_fncls(model, "solve_torchfcn")
